@@ -116,6 +116,7 @@ pub const E_ITER_FULL_PIPE: usize = C_ENGINE_BASE + 40;
 pub const E_ITER_REACTOR_TURNS: usize = C_ENGINE_BASE + 41;
 pub const E_ITER_CB_ERRORS: usize = C_ENGINE_BASE + 42;
 pub const E_CHAN_DROP_PANIC: usize = C_ENGINE_BASE + 43;
+pub const E_ITER_MIO_POLLS: usize = C_ENGINE_BASE + 44;
 
 pub const REG_REAL: &[&str] = &[
     "signal-hook-registry (half_lock.rs, lib.rs): real code from /repo",
